@@ -118,6 +118,69 @@ type Case struct {
 	Entry []string `json:"entrypoints_in_order"`
 	All   bool     `json:"all"`
 	Gens  []string `json:"generator_order"`
+	// the selection spans two modules (a main module and a replaced one with another path shape / go version)
+	TwoModules bool `json:"two_modules,omitempty"`
+}
+
+// checkTwoModules: packages of two modules selected alone and together, in both orders. The modules differ
+// in everything a run could resolve once and keep: module path (with / without a dot in its first element,
+// which decides how imports are grouped) and go version (which decides how literals are rewritten).
+func checkTwoModules(c *core.Ctx) {
+	c.Eval(1)
+	tree := pipe.Tree{
+		"go.mod":            pipe.GoMod("alpha.io/a", "1.24") + "\nrequire beta v0.0.0\n\nreplace beta => ./legacy\n",
+		"pa/pa.go":          "package pa\n\nimport _ \"beta/pb\"\n\ntype T struct{}\n",
+		"sub/sub.go":        "package sub\n\ntype X int\n",
+		"legacy/go.mod":     pipe.GoMod("beta", "1.12"),
+		"legacy/pb/pb.go":   "package pb\n\ntype T struct{}\n",
+		"legacy/sub/sub.go": "package sub\n\ntype X int\n",
+	}
+	act := pipe.Action{Render: "func F_$T() int {\n\treturn 0755\n}\n", Imports: []string{"fmt", "beta/sub", "alpha.io/a/sub"}}
+	files := []string{"pa/zz_generated.g1.go", "legacy/pb/zz_generated.g1.go"}
+	runSel := func(entry []string) (map[string]string, bool) {
+		dir := pipe.TempDir("c05m")
+		defer os.RemoveAll(dir)
+		_ = pipe.WriteTree(dir, tree)
+		o := pipe.Exec(pipe.Spec{Dir: dir, Entrypoints: entry, Globals: map[string][]string{"gengo:g1": {"true"}},
+			Gens: []pipe.GenScript{{Name: "g1", ByType: map[string]pipe.Action{"alpha.io/a/pa.T": act, "beta/pb.T": act}}}})
+		c.Trans(1)
+		cs := Case{Entry: entry, TwoModules: true}
+		if !o.OK() {
+			c.Fail("", cs, "run over entrypoints %v of the two-module tree failed: load=%q err=%q panic=%q", entry, o.LoadErr, o.Err, o.Panic)
+			return nil, false
+		}
+		out := map[string]string{}
+		for _, f := range files {
+			if b, err := os.ReadFile(dir + "/" + f); err == nil {
+				out[f] = string(b)
+			}
+		}
+		return out, true
+	}
+	ref := map[string]string{}
+	for i, e := range []string{"./pa", "beta/pb"} {
+		o, ok := runSel([]string{e})
+		if !ok {
+			return
+		}
+		if o[files[i]] == "" {
+			c.Fail("", Case{Entry: []string{e}, TwoModules: true}, "selecting %s alone wrote no %s", e, files[i])
+			return
+		}
+		ref[files[i]] = o[files[i]]
+	}
+	for _, entry := range [][]string{{"./pa", "beta/pb"}, {"beta/pb", "./pa"}} {
+		o, ok := runSel(entry)
+		if !ok {
+			return
+		}
+		for _, f := range files {
+			if o[f] != ref[f] {
+				c.Fail("C05-output-depends-on-other-module-in-run", Case{Entry: entry, TwoModules: true}, "entrypoints %v (modules alpha.io/a go 1.24 and beta go 1.12): %s differs from the run that selects its package alone\n--- alone ---\n%s--- together ---\n%s", entry, f, ref[f], o[f])
+			}
+		}
+	}
+	c.Nontrivial("two-modules")
 }
 
 var scripted = []string{"g1", "n1", "n2", "p1", "g2", "na"}
@@ -378,6 +441,10 @@ func run(c *core.Ctx) {
 		}
 	}
 	c.Bound("ordered_selections_x_all_x_generator_orders", n)
+	if c.Next() {
+		checkTwoModules(c)
+	}
+	c.Bound("two_module_selections", []string{"./pa of alpha.io/a (go 1.24)", "beta/pb of the replaced module beta (go 1.12)", "both, in either order"})
 }
 
 func replay(c *core.Ctx, raw json.RawMessage) {
@@ -386,13 +453,17 @@ func replay(c *core.Ctx, raw json.RawMessage) {
 		c.Internal("bad case: %v", err)
 		return
 	}
+	if cs.TwoModules {
+		checkTwoModules(c)
+		return
+	}
 	checkCase(c, cs)
 }
 
 func init() {
 	core.Register(&core.Prop{
 		ID: "C05", Level: "model_checking", Run: run, Replay: replay,
-		Rule:        "every non-empty ordered selection of entrypoints out of 5 packages (r imports p, s imports q and r; o sorts first and makes the scripted stateful generators record state without rendering anything) x All on/off x generator orders, each on a pristine copy of the module; generators: stateful scripted ones without New (g1, g2 with Defer), with a custom New (n1), with a custom New that copies its receiver (n2), registered with pre-allocated reference state and no New (p1), plus runtimedoc/deepcopy/defaulter; oracle: bytes of every <base>.<gen>.go of every processed package == bytes of the run selecting that package alone IN A FRESH PROCESS == bytes of the run selecting that package alone with that generator as the only one; non-trivial = more than one package processed; states = distinct (processed set, All)",
+		Rule:        "every non-empty ordered selection of entrypoints out of 5 packages (r imports p, s imports q and r; o sorts first and makes the scripted stateful generators record state without rendering anything) x All on/off x generator orders, each on a pristine copy of the module; generators: stateful scripted ones without New (g1, g2 with Defer), with a custom New (n1), with a custom New that copies its receiver (n2), registered with pre-allocated reference state and no New (p1), plus runtimedoc/deepcopy/defaulter; oracle: bytes of every <base>.<gen>.go of every processed package == bytes of the run selecting that package alone IN A FRESH PROCESS == bytes of the run selecting that package alone with that generator as the only one; plus one tree of two modules (different path shape and go version) whose packages are selected alone and together in both orders; non-trivial = more than one package processed; states = distinct (processed set, All)",
 		Assumptions: []string{"each run starts from the same pristine module tree (no outputs of earlier runs)"},
 	})
 }
